@@ -7,6 +7,7 @@ from .. import ndarr
 from ..ndarr import Arr, InterpRaise
 from ..absint import Interp
 from ..libmodels import Models
+from ..paths import approx_paths, path_text
 
 RULES = {
     'R-WINDOW': 'abstract run of fd_derivative on a symbolic grid with the calls of fd_weights intercepted: every output du[t] is '
@@ -42,11 +43,29 @@ def run(ctx):
 
 
 def one(ctx, where, n, m, N):
+    # tolerance predicates (np.allclose on the grid) are explored on both sides with the grid left symbolic
+    holder = {}
+
+    def body(oracle):
+        return one_path(ctx, where, n, m, N, oracle, holder)
+    try:
+        paths = approx_paths(body)
+    except AnalysisError as exc:
+        ctx.rep.undecided('R-WINDOW', 'fornberg.fd_derivative', exc, 'n=%d/m=%d/len(x)=%d' % (n, m, N))
+        return
     rep = ctx.rep
-    label = 'n=%d/m=%d/len(x)=%d' % (n, m, N)
-    mm = n // 2 + m
+    for decisions, res, exc in paths:
+        label = 'n=%d/m=%d/len(x)=%d' % (n, m, N) + ('' if not decisions else '/' + path_text(decisions))
+        if exc is not None:
+            rep.violation('R-COVER', 'fornberg.fd_derivative', where, {'raises': exc.exc_name, 'message': exc.msg[:100]},
+                          'a grid of at least 2*(n//2+m)+2 points is accepted', label, key='raises')
+            continue
+        judge(ctx, where, n, m, N, label, *res)
+
+
+def one_path(ctx, where, n, m, N, oracle, holder):
     models = Models()
-    I = Interp(ctx.repo, models)
+    I = Interp(ctx.repo, models, branch_oracle=oracle)
     models.bind(I)
     fdd = I.get_global('fornberg', 'fd_derivative')
     fw = I.get_global('fornberg', 'fd_weights')
@@ -69,12 +88,14 @@ def one(ctx, where, n, m, N):
     I.on_call = on_call
     try:
         du = fdd(fx, x, n, m)
-    except InterpRaise as exc:
-        rep.violation('R-COVER', 'fornberg.fd_derivative', where, {'raises': exc.exc_name, 'message': exc.msg[:100]},
-                      'a grid of at least 2*(n//2+m)+2 points is accepted', label, key='raises')
-        return
     finally:
         I.on_call = None
+    return du, calls
+
+
+def judge(ctx, where, n, m, N, label, du, calls):
+    rep = ctx.rep
+    mm = n // 2 + m
     ok_len = isinstance(du, Arr) and du.shape == (N,)
     unwritten = [t for t in range(N) if ok_len and ndarr.concrete_real(du[t]) == 0] if ok_len else []
     rep.check(ok_len and not unwritten, 'R-COVER', 'fornberg.fd_derivative', where,
